@@ -75,7 +75,7 @@ def make_jobs(ctx):
         for p in operator_contexts(base, op, pt, rt, spec, trap, solver=("z3" if solver == "smt" else "sat"),
                                    gmap=pm.g, wasm_name=op):
             pm.add(p)
-    jobs += pm.jobs(ctx, ["wasm_int.h"], "G")
+    jobs += pm.jobs(ctx, ["wasm_int.h", "libm_markers.h"], "G")
     if ctx.tier == "thorough":
         for tag, opts in (("Gp", ["-p"]), ("Gm", ["-m"]), ("Gf1", ["-f", "1"])):
             pm2 = ProbeModule("c01int")
@@ -86,7 +86,7 @@ def make_jobs(ctx):
                     pm2.add(p)
             if tag == "Gf1":
                 continue  # multi-file output is exercised by C09
-            jobs += pm2.jobs(ctx, ["wasm_int.h"], tag, opts=opts)
+            jobs += pm2.jobs(ctx, ["wasm_int.h", "libm_markers.h"], tag, opts=opts)
     return jobs
 
 
